@@ -747,7 +747,9 @@ class AttackGraph():
             logger.debug('Remove attacker "%s" with id:%d.',
                 attacker.name,
                 attacker.id)
-        for node in attacker.reached_attack_steps:
+        # Note: undo_compromise removes the node from reached_attack_steps,
+        # so iterate over a copy of the list.
+        for node in list(attacker.reached_attack_steps):
             attacker.undo_compromise(node)
         self.attackers.remove(attacker)
         if not isinstance(attacker.id, int):
